@@ -254,7 +254,8 @@ func bindRBTree(d *drv, t *rbt.Tree[int, int]) {
 	d.ceiling = func(k int) (int, int, bool) { return node(t.Ceiling(k)) }
 	d.shape = func() string { return rbTreeShape(t) }
 	d.hasCost, d.hasX = true, true
-	d.links = func() bool { return rbTreeLinks(t) && rbNodeAPI(t, d.probes()) }
+	d.links = func() bool { return rbTreeLinks(t) }
+	d.nodeAPI = func() bool { return rbNodeAPI(t, d.probes()) }
 	d.fingerprint = func() string { return fmt.Sprintf("RB%s size=%d", rbTreeShape(t), t.Size()) }
 }
 
@@ -274,7 +275,8 @@ func bindAVLTree(d *drv, t *avltree.Tree[int, int]) {
 	d.ceiling = func(k int) (int, int, bool) { return node(t.Ceiling(k)) }
 	d.shape = func() string { return avlShape(t.Root) }
 	d.hasCost, d.hasX = true, true
-	d.links = func() bool { return avlLinks(t.Root, t.Size()) && avlNodeAPI(t, d.probes()) }
+	d.links = func() bool { return avlLinks(t.Root, t.Size()) }
+	d.nodeAPI = func() bool { return avlNodeAPI(t, d.probes()) }
 	d.fingerprint = func() string { return fmt.Sprintf("AVL%s size=%d", avlShape(t.Root), t.Size()) }
 }
 
@@ -294,8 +296,7 @@ func bindBTree(d *drv, t *btree.Tree[int, int]) {
 	d.shape = func() string { return btShape(t.Root) }
 	d.height = t.Height
 	d.hasCost, d.hasX = true, true
-	d.links = func() bool {
-		return btLinks(t.Root, t.Size()) && t.VerifOrder() == d.cfg.Order && btNodeAPI(t, d.probes())
-	}
+	d.links = func() bool { return btLinks(t.Root, t.Size()) && t.VerifOrder() == d.cfg.Order }
+	d.nodeAPI = func() bool { return btNodeAPI(t, d.probes()) }
 	d.fingerprint = func() string { return fmt.Sprintf("BT%s size=%d m=%d", btShape(t.Root), t.Size(), t.VerifOrder()) }
 }
